@@ -110,6 +110,7 @@ func runSmall(c *core.Ctx) []core.Obligation {
 	smallEmptyArrayFreshSlice(c, b)
 	smallWave23(c, b)
 	smallWave25(c, b)
+	smallWave30(c, b)
 	smallStringOptionNull(c, b)
 	smallStringOptionMarshaler(c, b)
 	return b.out
@@ -6172,7 +6173,7 @@ func smallDataWordNotDereferenced(c *core.Ctx, b *ob) {
 // elements of an earlier one. decodeSlice, which truncates and reuses the array for non-empty
 // input like the standard library, must let go of it when the array is empty.
 func smallEmptyArrayFreshSlice(c *core.Ctx, b *ob) {
-	props := []string{"C02"}
+	props := []string{"C02", "C10"} // a slice that keeps a capacity over the shared placeholder writes into memory every such slice has
 	key := "decode-slice:empty-array-drops-the-backing-array"
 	fn := c.Lookup("json.(decoder).decodeSlice")
 	if fn == nil {
@@ -8273,6 +8274,465 @@ func smallWave25(c *core.Ctx, b *ob) {
 				b.addP(props, core.Violation, key, bad, bad+": the codecs of Message and custom types length-prefix their payload unless the toplevel bit says they are the outermost value, and the inline bit says how p is to be read — entry points that disagree produce different bytes (or a different size) for the same value, so MarshalTo into a buffer of Size(v) bytes fails or differs from Marshal")
 			} else {
 				b.addP(props, core.Discharged, key, "-", fmt.Sprintf("%d codec calls in Size, Marshal and MarshalTo, all with flags %#x", len(sites), sites[0].k))
+			}
+		}
+	}
+}
+
+// smallWave30 — clauses added for the thirtieth round of seeded changes.
+func smallWave30(c *core.Ctx, b *ob) {
+	// (d) the Tokenizer computes Index for every token, openers included: at least one store of
+	// t.index() is made before Next branches on whether the token is a delimiter
+	{
+		props := []string{"C17"}
+		key := "token:index-stored-for-every-token"
+		fn := c.Lookup("json.(*Tokenizer).Next")
+		if fn == nil {
+			b.addP(props, core.Undecided, key, "-", "json.(*Tokenizer).Next not found")
+		} else {
+			n, uncond := 0, false
+			for _, blk := range fn.Blocks {
+				for _, in := range blk.Instrs {
+					st, ok := in.(*ssa.Store)
+					if !ok {
+						continue
+					}
+					fa, ok := st.Addr.(*ssa.FieldAddr)
+					if !ok || fieldNameOf(fa) != "Index" {
+						continue
+					}
+					call, ok := st.Val.(*ssa.Call)
+					if !ok {
+						continue
+					}
+					if g := staticCallee(call.Common()); g == nil || g.Name() != "index" {
+						continue
+					}
+					n++
+					underDelim := false
+					for _, e := range dominatingEdges(blk) {
+						if dependsOn(e.ifi.Cond, func(x ssa.Value) bool {
+							f, isF := fieldOfLoad(x)
+							return isF && strings.HasSuffix(f, "Tokenizer.Delim")
+						}) {
+							underDelim = true
+						}
+					}
+					if !underDelim {
+						uncond = true
+					}
+				}
+			}
+			switch {
+			case n == 0:
+				b.addP(props, core.Violation, key, c.FuncPos(fn), "Tokenizer.Next never stores t.index() into Index")
+			case !uncond:
+				b.addP(props, core.Violation, key, c.FuncPos(fn), "every store of t.index() into Index is made under a test of the token's Delim: the tokens on the other side of the test ('{' and '[' when only scalars and closers are covered) keep the Index of the token before them — in [1,[2]] the inner '[' reports Index 0 instead of 1")
+			default:
+				b.addP(props, core.Discharged, key, c.FuncPos(fn), "Index is stored before Next branches on the delimiter")
+			}
+		}
+	}
+	// (e) the literal scanners hand back the text right after the literal: the remainder is b[k:]
+	// where the value is b[:k]. The Tokenizer keeps that remainder, and Remaining() is its length —
+	// white space skipped inside the scanner moves the token's window
+	for _, name := range []string{"json.(decoder).parseNull", "json.(decoder).parseTrue", "json.(decoder).parseFalse"} {
+		props := []string{"C17", "C11"}
+		key := "literal-scanner:remainder-follows-the-value:" + strings.TrimPrefix(name, "json.(decoder).")
+		fn := c.Lookup(name)
+		if fn == nil {
+			b.addP(props, core.Undecided, key, "-", name+" not found")
+			continue
+		}
+		n, bad := 0, ""
+		for _, r := range returnsOf(fn) {
+			if len(r.Results) < 2 {
+				continue
+			}
+			v, isV := r.Results[0].(*ssa.Slice)
+			if !isV || v.High == nil {
+				continue
+			}
+			k, isK := constInt(v.High)
+			if !isK {
+				continue
+			}
+			n++
+			rest, isR := r.Results[1].(*ssa.Slice)
+			okR := false
+			if isR && rest.X == v.X && rest.Low != nil {
+				if lk, isLK := constInt(rest.Low); isLK && lk == k {
+					okR = true
+				}
+			}
+			if !okR {
+				bad = c.InstrPos(r)
+			}
+		}
+		switch {
+		case n == 0:
+			b.addP(props, core.Undecided, key, c.FuncPos(fn), "no successful return of the form b[:k], … found")
+		case bad != "":
+			b.addP(props, core.Violation, key, bad, name+" returns b[:k] as the value and something other than b[k:] as the remainder: the Tokenizer's Value no longer ends Remaining() bytes before the end of the input when the literal is followed by white space")
+		default:
+			b.addP(props, core.Discharged, key, c.FuncPos(fn), "value b[:k], remainder b[k:]")
+		}
+	}
+	// (f) a Message field is sized with its length prefix unless it is the outermost value: the bare
+	// size is returned under flags.has(toplevel) and under nothing else (an empty message still
+	// takes its 00 length byte as an element of a repeated field)
+	{
+		props := []string{"C16", "C03"}
+		key := "message-size:bare-only-at-top-level"
+		var fn *ssa.Function
+		for _, f := range c.RepoFunctions() {
+			if f.Parent() != nil && f.Parent().Name() == "messageSizeFuncOf" && f.Blocks != nil {
+				fn = f
+			}
+		}
+		if fn == nil {
+			b.addP(props, core.Undecided, key, "-", "the closure of proto.messageSizeFuncOf not found")
+		} else {
+			n, bad := 0, ""
+			for _, r := range returnsOf(fn) {
+				if len(r.Results) != 1 {
+					continue
+				}
+				call, isC := r.Results[0].(*ssa.Call)
+				if !isC || !call.Common().IsInvoke() || call.Common().Method.Name() != "Size" {
+					continue
+				}
+				n++
+				okT := false
+				for _, a := range trueAtoms(r.Block(), 0) {
+					if hc, isH := a.(*ssa.Call); isH {
+						if g := staticCallee(hc.Common()); g != nil && g.Name() == "has" && len(hc.Common().Args) == 2 {
+							if k, isK := constUint(hc.Common().Args[1]); isK {
+								if tl, okTL := protoConst(c, "toplevel"); okTL && k == uint64(tl) {
+									okT = true
+								}
+							}
+						}
+					}
+				}
+				if !okT {
+					bad = c.InstrPos(r)
+				}
+			}
+			switch {
+			case n == 0:
+				b.addP(props, core.Undecided, key, c.FuncPos(fn), "the message size function never returns m.Size() as it is")
+			case bad != "":
+				b.addP(props, core.Violation, key, bad, "the size of a Message is returned without its length prefix on a path that is not (only) the top-level one: the encoder still writes the prefix there, so Size is short — an empty element of a repeated Message field is counted as 0 bytes and written as 00, and MarshalTo fails with a short buffer whatever the buffer")
+			default:
+				b.addP(props, core.Discharged, key, c.FuncPos(fn), "m.Size() is returned bare only under flags.has(toplevel)")
+			}
+		}
+	}
+	// (g) an encoder that reports n > 0 bytes written has written them on that path: a return of a
+	// positive constant count with a nil error is preceded, on every path, by a store into the
+	// destination (a zero that "needs no store" is only zero if the caller's buffer was)
+	{
+		props := []string{"C16", "C03"}
+		key := "encoder-count:bytes-reported-are-stored"
+		n, bad := 0, ""
+		for _, fn := range c.RepoFunctions() {
+			name := shortName(fn)
+			if fn.Blocks == nil || !strings.HasPrefix(name, "proto.encode") || len(fn.Params) == 0 || !isSliceType(fn.Params[0].Type()) {
+				continue
+			}
+			dst := fn.Params[0]
+			writes := map[*ssa.BasicBlock]bool{}
+			for _, blk := range fn.Blocks {
+				for _, in := range blk.Instrs {
+					switch x := in.(type) {
+					case *ssa.Store:
+						if ia, ok := x.Addr.(*ssa.IndexAddr); ok {
+							for _, o := range origins(ia.X) {
+								if o == ssa.Value(dst) {
+									writes[blk] = true
+								}
+								if sl, isS := o.(*ssa.Slice); isS && stripConv(sl.X) == ssa.Value(dst) {
+									writes[blk] = true
+								}
+							}
+						}
+					case ssa.CallInstruction:
+						for _, a := range x.Common().Args {
+							root := a
+							for {
+								sl, ok := root.(*ssa.Slice)
+								if !ok {
+									break
+								}
+								root = sl.X
+							}
+							if root == ssa.Value(dst) {
+								if bi, isB := x.Common().Value.(*ssa.Builtin); isB && bi.Name() == "len" {
+									continue
+								}
+								writes[blk] = true
+							}
+						}
+					}
+				}
+			}
+			for _, r := range returnsOf(fn) {
+				if len(r.Results) != 2 || !isNilConst(r.Results[1]) {
+					continue
+				}
+				k, isK := constInt(r.Results[0])
+				if !isK || k <= 0 {
+					continue
+				}
+				n++
+				// must-write: on every path from the entry to the return
+				must := map[*ssa.BasicBlock]bool{}
+				for _, blk := range fn.Blocks {
+					must[blk] = true
+				}
+				must[fn.Blocks[0]] = false
+				for changed := true; changed; {
+					changed = false
+					for _, blk := range fn.Blocks {
+						if blk == fn.Blocks[0] {
+							continue
+						}
+						v := true
+						for _, pr := range blk.Preds {
+							if !(must[pr] || writes[pr]) {
+								v = false
+							}
+						}
+						if v != must[blk] {
+							must[blk] = v
+							changed = true
+						}
+					}
+				}
+				if !(must[r.Block()] || writes[r.Block()]) {
+					bad = c.InstrPos(r) + " (" + name + ")"
+				}
+			}
+		}
+		switch {
+		case bad != "":
+			b.addP(props, core.Violation, key, bad, "an encoder returns a positive byte count with a nil error at "+bad+" on a path that stores nothing into the destination: the bytes it claims are whatever the caller's buffer held (a fixed64 zero \"needs no store\" only if the buffer was zeroed — MarshalTo into a reused buffer emits the previous message's bytes)")
+		default:
+			b.addP(props, core.Discharged, key, "-", fmt.Sprintf("%d constant positive counts returned by proto encoders, each on a path that writes into the destination", n))
+		}
+	}
+	// (h) the strings of an error value are the library's results like any other: what is stored into
+	// an UnmarshalTypeError (Value, Field, Struct) is never an unsafe view of input bytes — the input,
+	// or the Decoder's read buffer, changes under the caller who kept the error
+	{
+		props := []string{"C10"}
+		key := "type-error:strings-are-copies"
+		n, bad := 0, ""
+		for _, fn := range c.RepoFunctions() {
+			if fn.Blocks == nil || !strings.HasPrefix(shortName(fn), "json.") {
+				continue
+			}
+			for _, blk := range fn.Blocks {
+				for _, in := range blk.Instrs {
+					st, ok := in.(*ssa.Store)
+					if !ok {
+						continue
+					}
+					fa, ok := st.Addr.(*ssa.FieldAddr)
+					if !ok || !strings.Contains(fieldAddrID(fa), "UnmarshalTypeError.") || !isStringType(st.Val.Type()) {
+						continue
+					}
+					n++
+					for _, o := range append(origins(st.Val), st.Val) {
+						if ld, isLd := o.(*ssa.UnOp); isLd && ld.Op == token.MUL {
+							if cv, isC := ld.X.(*ssa.Convert); isC {
+								if _, fromPtr := cv.X.Type().Underlying().(*types.Basic); fromPtr {
+									bad = c.InstrPos(st) + " (" + shortName(fn) + ": " + fieldNameOf(fa) + ")"
+								}
+							}
+						}
+					}
+				}
+			}
+		}
+		switch {
+		case n == 0:
+			b.addP(props, core.Undecided, key, "-", "no store into an UnmarshalTypeError found")
+		case bad != "":
+			b.addP(props, core.Violation, key, bad, "a string field of an UnmarshalTypeError is an unsafe view of a byte slice at "+bad+": the text of the error is the caller's input (or the Decoder's read buffer), so it changes when that memory is reused — without any zero-copy flag having been given")
+		default:
+			b.addP(props, core.Discharged, key, "-", fmt.Sprintf("%d stores into UnmarshalTypeError string fields, none an unsafe view", n))
+		}
+	}
+	// (i) null sets a map to nil, in every map decoder alike (encoding/json: "null into a map sets
+	// it to nil", also when the target holds entries from an earlier decode)
+	{
+		props := []string{"C02"}
+		key := "decode-map:null-clears-the-map"
+		n, bad := 0, ""
+		for _, fn := range c.RepoFunctions() {
+			name := shortName(fn)
+			if fn.Blocks == nil || !strings.HasPrefix(name, "json.(decoder).decodeMap") {
+				continue
+			}
+			var nullBlk *ssa.BasicBlock
+			for _, blk := range fn.Blocks {
+				if nullBlk != nil {
+					break
+				}
+				for _, a := range trueAtoms(blk, 0) {
+					if call, isC := a.(*ssa.Call); isC {
+						if g := staticCallee(call.Common()); g != nil && g.Name() == "hasNullPrefix" && len(blk.Preds) == 1 && blk.Preds[0] == call.Block() {
+							nullBlk = blk
+						}
+					}
+				}
+			}
+			if nullBlk == nil {
+				continue
+			}
+			n++
+			clears := false
+			for _, in := range nullBlk.Instrs {
+				switch x := in.(type) {
+				case *ssa.Store:
+					if isNilConst(x.Val) {
+						clears = true
+					}
+				case ssa.CallInstruction:
+					// the reflect-based decoder: v.Set(reflect.Zero(t)) and the like
+					cn := calleeName(x.Common())
+					if strings.Contains(cn, "reflect.") && (strings.HasSuffix(cn, ".Set") || strings.HasSuffix(cn, "SetZero") || strings.Contains(cn, "Zero")) {
+						clears = true
+					}
+				}
+			}
+			if !clears {
+				bad = c.InstrPos(nullBlk.Instrs[0]) + " (" + name + ")"
+			}
+		}
+		switch {
+		case n == 0:
+			b.addP(props, core.Undecided, key, "-", "no map decoder with a null arm found")
+		case bad != "":
+			b.addP(props, core.Violation, key, bad, "the null arm of a map decoder at "+bad+" returns without setting the map to nil, unlike its siblings: a map that holds entries from an earlier decode keeps them when the next document says null, where encoding/json sets it to nil")
+		default:
+			b.addP(props, core.Discharged, key, "-", fmt.Sprintf("%d map decoders, each sets the map to nil on null", n))
+		}
+	}
+	// (a) zig-zag decoding shifts the unsigned word: (v >> 1) ^ -(v & 1) with a logical shift. On a
+	// value converted to a signed type first the shift carries the sign bit along, and every value
+	// whose zig-zag form has the top bit set (|x| >= 2^30 for sint32) decodes to another number.
+	{
+		props := []string{"C19", "C12"}
+		n, bad := 0, ""
+		for _, name := range []string{"proto.decodeZigZag32", "proto.decodeZigZag64"} {
+			fn := c.Lookup(name)
+			if fn == nil {
+				continue
+			}
+			for _, blk := range fn.Blocks {
+				for _, in := range blk.Instrs {
+					bo, ok := in.(*ssa.BinOp)
+					if !ok || bo.Op != token.SHR {
+						continue
+					}
+					n++
+					if bt, isB := bo.X.Type().Underlying().(*types.Basic); !isB || bt.Info()&types.IsUnsigned == 0 {
+						bad = c.InstrPos(bo) + " (" + name + ")"
+					}
+				}
+			}
+		}
+		key := "zigzag-decode:logical-shift"
+		switch {
+		case n == 0:
+			b.addP(props, core.Undecided, key, "-", "no shift found in proto.decodeZigZag32/64")
+		case bad != "":
+			b.addP(props, core.Violation, key, bad, "the zig-zag decoder shifts a signed value at "+bad+": the arithmetic shift keeps the sign bit, so a zig-zag word with its top bit set (a sint32 of magnitude 2^30 and more) decodes to a different number — BitOr on such a field rewrites it to garbage")
+		default:
+			b.addP(props, core.Discharged, key, "-", fmt.Sprintf("%d shifts in the zig-zag decoders, each on an unsigned operand", n))
+		}
+	}
+	// (b) FieldNumber.Value writes a float32 as a fixed32 field: widening it to float64 first changes
+	// the wire type of the field (fixed64), which the field's codec rejects
+	{
+		props := []string{"C19"}
+		key := "field-value:float32-stays-32-bits"
+		fn := c.Lookup("proto.(FieldNumber).Value")
+		if fn == nil {
+			b.addP(props, core.Undecided, key, "-", "proto.(FieldNumber).Value not found")
+		} else {
+			bad := ""
+			for _, blk := range fn.Blocks {
+				for _, in := range blk.Instrs {
+					cv, ok := in.(*ssa.Convert)
+					if !ok {
+						continue
+					}
+					ft, ok1 := cv.X.Type().Underlying().(*types.Basic)
+					tt, ok2 := cv.Type().Underlying().(*types.Basic)
+					if ok1 && ok2 && ft.Kind() == types.Float32 && tt.Kind() == types.Float64 {
+						bad = c.InstrPos(cv)
+					}
+				}
+			}
+			if bad != "" {
+				b.addP(props, core.Violation, key, bad, "FieldNumber.Value widens a float32 to float64 before building the field: the value is written as an 8-byte fixed64 field where the message's float field is fixed32 — the rewritten message fails to decode (expected wire type 5)")
+			} else {
+				b.addP(props, core.Discharged, key, c.FuncPos(fn), "no float32 is widened in FieldNumber.Value")
+			}
+		}
+	}
+	// (c) what ParseRewriteTemplate returns depends on the type, the template and the rules: it is
+	// not answered from a package-level table unless every one of them is part of the key (the
+	// rules are arbitrary user values: in practice, not cached at all)
+	{
+		props := []string{"C19", "C09"}
+		key := "rewrite-template:not-answered-from-a-cache"
+		fn := c.Lookup("proto.ParseRewriteTemplate")
+		if fn == nil {
+			b.addP(props, core.Undecided, key, "-", "proto.ParseRewriteTemplate not found")
+		} else {
+			bad := ""
+			for _, r := range returnsOf(fn) {
+				for _, res := range r.Results {
+					if dependsOn(res, func(x ssa.Value) bool {
+						call, ok := x.(*ssa.Call)
+						if !ok {
+							return false
+						}
+						cn := calleeName(call.Common())
+						if strings.HasPrefix(cn, "(*sync.Map).Load") || strings.HasPrefix(cn, "sync.(*Map).Load") || strings.Contains(cn, "sync.Map).Load") {
+							return true
+						}
+						return false
+					}) {
+						bad = c.InstrPos(r)
+					}
+					if dependsOn(res, func(x ssa.Value) bool {
+						lk, ok := x.(*ssa.Lookup)
+						if !ok {
+							return false
+						}
+						for _, o := range origins(lk.X) {
+							if ld, isLd := o.(*ssa.UnOp); isLd {
+								if _, isG := ld.X.(*ssa.Global); isG {
+									return true
+								}
+							}
+						}
+						return false
+					}) {
+						bad = c.InstrPos(r)
+					}
+				}
+			}
+			if bad != "" {
+				b.addP(props, core.Violation, key, bad, "ParseRewriteTemplate returns a rewriter found in a package-level table: the table's key cannot hold the rules (BitOr masks and other user values), so a template first parsed without rules answers the later call with rules — the field is replaced where it should be or-ed (flags 1 with mask 16 gives 16, not 17)")
+			} else {
+				b.addP(props, core.Discharged, key, c.FuncPos(fn), "every result is built by this call")
 			}
 		}
 	}
